@@ -76,6 +76,11 @@ def _ask_again(job):
             said.append(f'{name}: {ans or "no answer"}')
             if ans == 'unsat':
                 return name, said
+            if ans == 'sat' and name == 'z3' and 'pymul' not in text:
+                # (with pymul the text is the LINEAR abstraction of products: a model may be spurious)
+                # a counterexample exists (z3 certifies its models), but a fresh process gives us no
+                # way to read it back into the replay: reported as refuted without an input
+                return 'SAT', said
         return '', said
     finally:
         os.unlink(path)
@@ -104,7 +109,9 @@ def cvc5_second_opinion(results, timeout_s=20, jobs=8):
             got = answers[i:i + len(texts)]
             o['second_opinions'] = [s for b in both[i:i + len(texts)] for s in b[1]]
             i += len(texts)
-            if all(got):
+            if 'SAT' in got:
+                o['second_sat'] = True
+            elif all(got):
                 o['verdict'] = 'proved'
                 o['backend'] = 'cvc5' if 'cvc5' in got else 'z3'
                 n += 1
@@ -325,7 +332,8 @@ def run_property(pid, tier='quick', seed=0, jobs=16, verbose=False):
                                                         detail=rs.get('detail', '')) for d, rs in fails[:20]]),
                               open(rp, 'w'), indent=1, default=str)
                     violations.append((n, rp, False))
-                elif n in baseline and o.get('reasons') and all(_gave_up(x) for x in o['reasons']):
+                elif n in baseline and (o.get('second_sat') or (
+                        o.get('reasons') and all(_gave_up(x) for x in o['reasons']))):
                     # The obligation was discharged on the unchanged tree (contracts/baseline/<id>.json)
                     # and now the solver gives up for a reason that is not a time limit (its
                     # quantifier instantiation saturated on a candidate model; the second opinions
@@ -335,9 +343,13 @@ def run_property(pid, tier='quick', seed=0, jobs=16, verbose=False):
                                    line=o['line'], verifier='pyvc/z3', solver_verdict='unknown',
                                    solver_reasons=o['reasons'], second_opinions=o.get('second_opinions', []),
                                    candidate_model_not_certified=o.get('candidate'),
-                                   note='obligation was discharged on the unchanged tree and is no longer '
-                                        'provable; the solver stopped without a time-out and without a '
-                                        'certified counterexample',
+                                   note=('obligation was discharged on the unchanged tree; now a fresh z3 process '
+                                         'given three times the budget answers sat on the negated obligation '
+                                         '(a counterexample exists; it could not be read back for replay)'
+                                         if o.get('second_sat') else
+                                         'obligation was discharged on the unchanged tree and is no longer '
+                                         'provable; the solver stopped without a time-out and without a '
+                                         'certified counterexample'),
                                    replay_candidates_tried=tried, failing_inputs=[]),
                               open(rp, 'w'), indent=1, default=str)
                     violations.append((n, rp, True))
@@ -419,10 +431,12 @@ def run_property(pid, tier='quick', seed=0, jobs=16, verbose=False):
         errors.append(f'vacuity: only {n_obl} obligations generated, expected at least {exp}')
     # ---------------------------------------------------------------- verdict
     wall = time.time() - t0
-    if errors:
-        code = 3
-    elif violations:
+    if violations:
+        # a failed obligation is reported even if another part of the run ended in a checker error
+        # (a change of the code often causes both); the errors are printed and recorded as well
         code = 1
+    elif errors:
+        code = 3
     elif undecided:
         code = 2
     else:
